@@ -5,6 +5,7 @@ from .. import env  # noqa: F401
 from ..core import Phase, Result
 from .. import scripted, snapshot
 from .. import solvecheck as SC
+from ..represent import Rep
 from ..util import attempt, same_value
 
 import fsic
@@ -96,6 +97,8 @@ def names_for(trace, model):
 
 def call(model, c, with_trace):
     kw = dict(c.get('opts') or {})
+    if with_trace:
+        kw = Rep(c.get('rep')).opts(kw)      # the traced call gets the same option values in other representations
     if with_trace and 'trace' in c:
         tr = c['trace']
         if isinstance(tr, dict) and 'tuple' in tr:
@@ -267,6 +270,8 @@ def strategy():
                 c['pre'] = draw(pre)
             if tr == 'on' and draw(st.integers(0, 7)) == 0:
                 c['reset'] = True
+            if draw(st.integers(0, 2)) == 0:
+                c['rep'] = draw(st.lists(st.integers(0, 11), min_size=1, max_size=4))
             calls.append(c)
         hooks = draw(st.sampled_from([None, None, None, {'before': 'KeyError'}, {'after': 'ValueError'}, {'after': 'ZeroDivisionError'}]))
         case = {'n': n, 'script': draw(passes), 'hooks': hooks, 'calls': calls,
